@@ -541,3 +541,14 @@ package larking
 //@   ensures [carry C06] at "return count, b[:n], err" err == nil ==> Buffered(s.rbuf, s.r, rdpos(s.r) - len(s.rbuf))
 //@   ensures [message-window C06] at "return count, b[:n], err" err == nil ==>
 //@        (forall x :: off(msg) <= x && x < off(msg) + len(msg) ==> raw(msg)[x] == rdS(s.r)[x - off(msg) + rdpos(s.r) - len(s.rbuf) - len(msg)])
+
+// ---------------------------------------------------------------------------
+// http.go: request parameters. Path-bound fields are authoritative (C07): the
+// params applied last win in params.set, so every path capture must come after
+// every query parameter in the list handed to the stream.
+//@ func (*Mux).serveHTTP serves C07 partial ghost
+//@   requires m != nil && w != nil && r != nil
+//@   witness verifWitnessPathAuthoritative
+//@   ghost at "queryParams, err := method.parseQueryParams(r.URL.Query())" pp = params
+//@   assert at "hd, err := s.pickMethodHandler(method.name)" [path-params-last C07] len(params) == len(pp) + len(queryParams)
+//@        && (forall k :: 0 <= k && k < len(pp) ==> same(params[len(queryParams) + k], at(pp, off(pp) + k)))
